@@ -6,7 +6,7 @@ from .. import gen, impl, oracle, ser, stream
 
 ID = "C04"
 LEVEL = "proof"
-PROPS_MODULE = "SymmModel.Props.C04All9"
+PROPS_MODULE = "SymmModel.Props.C04All10"
 THEOREMS = [
     "SymmModel.C04.permuted_compose",
     "SymmModel.C04.compose_isPerm",
@@ -109,10 +109,31 @@ THEOREMS = [
     "SymmModel.C04.compS_def",
     "SymmModel.C04.rotB_def",
     "SymmModel.C04.ftree_defs",
-    "SymmModel.C04.emb_def"
+    "SymmModel.C04.emb_def",
+    "SymmModel.C04.tdotF_axes_perm_weak",
+    "SymmModel.C04.tdotF_axes_pairs_weak",
+    "SymmModel.C04.net4_bracketings",
+    "SymmModel.C04.net4_dense",
+    "SymmModel.C04.net4_GRat",
+    "SymmModel.C04.square4_bracketings",
+    "SymmModel.C04.star4_bracketings",
+    "SymmModel.C04.pendant4_bracketings",
+    "SymmModel.C04.net4_flagged",
+    "SymmModel.C04.teq_dense",
+    "SymmModel.C04.teq_of_eqv",
+    "SymmModel.C04.teq_trans",
+    "SymmModel.C04.transposeF_congr_eqv",
+    "SymmModel.C04.transposeF_comp_eqv",
+    "SymmModel.C04.tdotF_pretranspose_eqv",
+    "SymmModel.C04.exchange3",
+    "SymmModel.C04.net4_all_orders",
+    "SymmModel.C04.net4_every_route",
+    "SymmModel.C04.net4_every_route_ref",
+    "SymmModel.C04.net4_routes_agree",
+    "SymmModel.C04.exNet_ok"
 ]
-LEAN_FILES = ["SymmModel.Props.C04", "SymmModel.Proofs.Oddpos", "SymmModel.Proofs.Koszul", "SymmModel.Props.C04b", "SymmModel.Props.C04All", "SymmModel.Proofs.Routes", "SymmModel.Proofs.Routes2", "SymmModel.Proofs.Routes3", "SymmModel.Proofs.Routes4", "SymmModel.Props.C04c", "SymmModel.Props.C04All2", "SymmModel.Proofs.AssocWeak", "SymmModel.Proofs.AssocGeom", "SymmModel.Proofs.AssocSum", "SymmModel.Proofs.AssocFrame", "SymmModel.Proofs.AssocLeft", "SymmModel.Proofs.AssocRight", "SymmModel.Proofs.AssocIdx", "SymmModel.Proofs.AssocMain", "SymmModel.Props.C04d", "SymmModel.Props.C04All3", "SymmModel.Proofs.Assoc2Geom", "SymmModel.Proofs.Assoc2Sum", "SymmModel.Proofs.Assoc2Left", "SymmModel.Proofs.Assoc2Right", "SymmModel.Proofs.Assoc2Main", "SymmModel.Props.C06c", "SymmModel.Props.C04All4", "SymmModel.Props.C04e", "SymmModel.Props.C04All5", "SymmModel.Proofs.Assoc3Valid", "SymmModel.Proofs.Assoc3Frame", "SymmModel.Proofs.Assoc3Left", "SymmModel.Proofs.Assoc3Right", "SymmModel.Proofs.Assoc3Main", "SymmModel.Proofs.Assoc3Eqv", "SymmModel.Proofs.Assoc3Chain", "SymmModel.Proofs.Assoc3Seg", "SymmModel.Props.C04f", "SymmModel.Props.C04All6", "SymmModel.Proofs.Assoc4Seg", "SymmModel.Proofs.Assoc4Tree", "SymmModel.Proofs.Assoc4Swap", "SymmModel.Props.C06d", "SymmModel.Props.C04All7", "SymmModel.Props.C06e", "SymmModel.Props.C04All8", "SymmModel.Props.C04g", "SymmModel.Props.C04All9", "SymmModel.Proofs.Assoc5Pre", "SymmModel.Proofs.Assoc5Swap", "SymmModel.Proofs.Assoc5Tree", "SymmModel.Proofs.Assoc5Labels", "SymmModel.Proofs.Assoc5Two"]
-PLANNED = ["label routes for fully paired label lists with more than two labels per tensor (<= 2 proved symbolically)", "general network graphs beyond chains and triangles"]
+LEAN_FILES = ["SymmModel.Props.C04", "SymmModel.Proofs.Oddpos", "SymmModel.Proofs.Koszul", "SymmModel.Props.C04b", "SymmModel.Props.C04All", "SymmModel.Proofs.Routes", "SymmModel.Proofs.Routes2", "SymmModel.Proofs.Routes3", "SymmModel.Proofs.Routes4", "SymmModel.Props.C04c", "SymmModel.Props.C04All2", "SymmModel.Proofs.AssocWeak", "SymmModel.Proofs.AssocGeom", "SymmModel.Proofs.AssocSum", "SymmModel.Proofs.AssocFrame", "SymmModel.Proofs.AssocLeft", "SymmModel.Proofs.AssocRight", "SymmModel.Proofs.AssocIdx", "SymmModel.Proofs.AssocMain", "SymmModel.Props.C04d", "SymmModel.Props.C04All3", "SymmModel.Proofs.Assoc2Geom", "SymmModel.Proofs.Assoc2Sum", "SymmModel.Proofs.Assoc2Left", "SymmModel.Proofs.Assoc2Right", "SymmModel.Proofs.Assoc2Main", "SymmModel.Props.C06c", "SymmModel.Props.C04All4", "SymmModel.Props.C04e", "SymmModel.Props.C04All5", "SymmModel.Proofs.Assoc3Valid", "SymmModel.Proofs.Assoc3Frame", "SymmModel.Proofs.Assoc3Left", "SymmModel.Proofs.Assoc3Right", "SymmModel.Proofs.Assoc3Main", "SymmModel.Proofs.Assoc3Eqv", "SymmModel.Proofs.Assoc3Chain", "SymmModel.Proofs.Assoc3Seg", "SymmModel.Props.C04f", "SymmModel.Props.C04All6", "SymmModel.Proofs.Assoc4Seg", "SymmModel.Proofs.Assoc4Tree", "SymmModel.Proofs.Assoc4Swap", "SymmModel.Props.C06d", "SymmModel.Props.C04All7", "SymmModel.Props.C06e", "SymmModel.Props.C04All8", "SymmModel.Props.C04g", "SymmModel.Props.C04All9", "SymmModel.Proofs.Assoc5Pre", "SymmModel.Proofs.Assoc5Swap", "SymmModel.Proofs.Assoc5Tree", "SymmModel.Proofs.Assoc5Labels", "SymmModel.Proofs.Assoc5Two", "SymmModel.Props.C04h", "SymmModel.Proofs.Net4Relist", "SymmModel.Proofs.Net4K4", "SymmModel.Proofs.Net4Flag", "SymmModel.Proofs.Net4Trans", "SymmModel.Proofs.Net4Pre", "SymmModel.Proofs.Net4Exch", "SymmModel.Proofs.Net4Star", "SymmModel.Proofs.Net4Moves", "SymmModel.Proofs.Net4Orders"]
+PLANNED = ["label routes for fully paired label lists with more than two labels per tensor (<= 2 proved symbolically)", "four-tensor networks of arbitrary graph in fused/auto mode (blockwise proved: net4_every_route", "chains and triangles proved in every mode)", "networks of more than four tensors with arbitrary graphs (chains of any length proved)"]
 RULE = ("random networks of 2-4 fermionic tensors (chains, triangles, stars; with and without dangling legs), all "
         "symmetries, random bond orientations, every mix of even/odd charges with distinct labels, sparse, pending "
         "signs; 4 random routes per network differing in contraction order, operand order, axis listing order, "
